@@ -162,3 +162,123 @@ theorem sendRequestS_ok {c : Cfg} {ch : Chan.Chan} {s : TS} {injs : List Chan.In
           · simp [h2, headOutcome, doSend, hf, h1]
 
 end TV.Stack
+
+namespace TV.Stack
+open TV TV.Strat
+
+/-- what stays fixed in the channel across `send_probe` calls -/
+def SameChan (a b : Chan.Chan) : Prop :=
+  b.cfg = a.cfg ∧ b.now = a.now ∧ b.tcpTimeout = a.tcpTimeout ∧ b.hasSend = a.hasSend
+
+theorem SameChan.refl (a : Chan.Chan) : SameChan a a := ⟨rfl, rfl, rfl, rfl⟩
+theorem SameChan.trans {a b c : Chan.Chan} (h1 : SameChan a b) (h2 : SameChan b c) : SameChan a c :=
+  ⟨h2.1.trans h1.1, h2.2.1.trans h1.2.1, h2.2.2.1.trans h1.2.2.1, h2.2.2.2.trans h1.2.2.2⟩
+
+theorem sameChan_send (ch : Chan.Chan) (p : Probe) (inj : Chan.Inject) :
+    SameChan ch (Chan.send ch p inj).1 := by
+  unfold SameChan Chan.send
+  cases ch.cfg.proto <;> simp only <;> (try split) <;>
+    first
+    | (unfold Chan.sendOld
+       cases ch.cfg.proto <;> simp only <;>
+         (try split) <;> (try split) <;> (try split) <;> (try split) <;> simp)
+    | simp
+
+theorem finishSend_chan {ch : Chan.Chan} {s : TS} {p : Probe} {log : List (Probe × SendOutcome)}
+    {calls : List (List Wire.SockOp)} {out : Chan.SendOut} {r : SendRes}
+    (h : finishSend ch s p log calls out = .ok r) : r.1 = ch := (finishSend_ok h).1
+
+theorem tcpLoopS_chan (c : Cfg) : ∀ (injs : List Chan.Inject) (ch : Chan.Chan) (s : TS) (p : Probe)
+    (log : List (Probe × SendOutcome)) (calls : List (List Wire.SockOp)) (r : SendRes),
+    tcpLoopS c ch s p log calls injs = .ok r → SameChan ch r.1 := by
+  intro injs
+  induction injs with
+  | nil =>
+    intro ch s p log calls r h
+    simp only [tcpLoopS] at h
+    rw [finishSend_chan h]; exact sameChan_send ch p none
+  | cons inj rest ih =>
+    intro ch s p log calls r h
+    simp only [tcpLoopS] at h
+    have hsc := sameChan_send ch p inj
+    cases hout : (Chan.send ch p inj).2 with
+    | panic => rw [hout] at h; simp [finishSend] at h
+    | ok ops => rw [hout] at h; rw [finishSend_chan h]; exact hsc
+    | err e ops =>
+      rw [hout] at h
+      by_cases hea : e = .addrInUse
+      · subst hea
+        simp only at h
+        cases hcap : roundHasCapacity s with
+        | panic => simp [hcap] at h
+        | err e => simp [hcap] at h
+        | ok cap =>
+          simp only [hcap, R.bind_ok] at h
+          cases cap with
+          | false => simp at h
+          | true =>
+            simp only [if_true] at h
+            cases hre : reissueProbe c s s.now with
+            | panic => simp [hre] at h
+            | err e => simp [hre] at h
+            | ok sp =>
+              obtain ⟨s1, p'⟩ := sp
+              simp only [hre, R.bind_ok] at h
+              exact hsc.trans (ih _ s1 p' _ _ r h)
+      · have h' : finishSend (Chan.send ch p inj).1 s p log calls (.err e ops) = .ok r := by
+          cases e <;> first | exact absurd rfl hea | exact h
+        rw [finishSend_chan h']; exact hsc
+
+/-- the send step leaves the channel's configuration and clock alone -/
+theorem sendRequestS_chan {c : Cfg} {ch : Chan.Chan} {s : TS} {injs : List Chan.Inject} {r : SendRes}
+    (h : sendRequestS c ch s injs = .ok r) : SameChan ch r.1 := by
+  unfold sendRequestS at h
+  cases hg : canSendR c s with
+  | panic => simp [hg] at h
+  | err e => simp [hg] at h
+  | ok g =>
+    simp only [hg, R.bind_ok] at h
+    cases g with
+    | false => simp at h; subst h; exact SameChan.refl ch
+    | true =>
+      simp only [if_true] at h
+      unfold doSendsS at h
+      cases hp : c.proto with
+      | tcp =>
+        simp only [hp] at h
+        cases hcap : roundHasCapacity s with
+        | panic => simp [hcap] at h
+        | err e => simp [hcap] at h
+        | ok cap =>
+          simp only [hcap, R.bind_ok] at h
+          cases cap with
+          | false => simp at h
+          | true =>
+            simp only [if_true] at h
+            cases hn : nextProbe c s s.now with
+            | panic => simp [hn] at h
+            | err e => simp [hn] at h
+            | ok sp =>
+              obtain ⟨s1, p⟩ := sp
+              simp only [hn, R.bind_ok] at h
+              exact tcpLoopS_chan c injs ch s1 p [] [] r h
+      | icmp =>
+        simp only [hp] at h
+        cases hn : nextProbe c s s.now with
+        | panic => simp [hn] at h
+        | err e => simp [hn] at h
+        | ok sp =>
+          obtain ⟨s1, p⟩ := sp
+          simp only [hn, R.bind_ok] at h
+          rw [finishSend_chan h]; exact sameChan_send ch p _
+      | udp =>
+        simp only [hp] at h
+        cases hn : nextProbe c s s.now with
+        | panic => simp [hn] at h
+        | err e => simp [hn] at h
+        | ok sp =>
+          obtain ⟨s1, p⟩ := sp
+          simp only [hn, R.bind_ok] at h
+          rw [finishSend_chan h]; exact sameChan_send ch p _
+
+end TV.Stack
